@@ -8,7 +8,12 @@ pub struct HeartbeatTimers {
 }
 impl HeartbeatTimers {
     /// timeouts are only ever set by start()/fire_*(): an armed timer means heartbeats were started
-    pub open spec fn wf(&self) -> bool { self.timer.armed() ==> self.started@ }
+    /// ... and once started, both the rx and the tx timeout are always pending (a timeout that fired is set again before anything else
+    /// happens): this is what keeps heartbeats going for the lifetime of the connection
+    pub open spec fn wf(&self) -> bool {
+        (self.timer.armed() ==> self.started@)
+        && (self.started@ ==> self.timer.pending().count(HeartbeatKind::Rx) > 0 && self.timer.pending().count(HeartbeatKind::Tx) > 0)
+    }
     #[verifier::external_body]
     pub fn record_rx_activity(&mut self)
         ensures final(self).rx_marks@ == old(self).rx_marks@ + 1, final(self).tx_marks@ == old(self).tx_marks@, final(self).started@ == old(self).started@, final(self).timer == old(self).timer,
@@ -17,21 +22,25 @@ impl HeartbeatTimers {
     pub fn record_tx_activity(&mut self)
         ensures final(self).tx_marks@ == old(self).tx_marks@ + 1, final(self).rx_marks@ == old(self).rx_marks@, final(self).started@ == old(self).started@, final(self).timer == old(self).timer,
     { unimplemented!() }
-    /// start() asserts that timers were not started before (heartbeat_timers.rs)
+    /// start() asserts that timers were not started before (heartbeat_timers.rs), Heartbeat::start that the interval is not zero
+    /// (heartbeats.rs), and twice the interval must be representable (unit `heartbeat` proves the real start() under exactly this)
     #[verifier::external_body]
     pub fn start(&mut self, interval: Duration)
-        requires !old(self).started@,
+        requires !old(self).started@, interval.ns > 0, 2 * interval.ns as int <= time_mirror::dur_max(),
         ensures final(self).started@, final(self).timer.armed(), final(self).rx_marks@ == old(self).rx_marks@, final(self).tx_marks@ == old(self).tx_marks@,
+            final(self).timer.pending().count(HeartbeatKind::Rx) > 0, final(self).timer.pending().count(HeartbeatKind::Tx) > 0,
     { unimplemented!() }
     /// fire_* expect started timers (the two `expect`s in heartbeat_timers.rs)
     #[verifier::external_body]
     pub fn fire_rx(&mut self) -> (r: HeartbeatState)
         requires old(self).started@,
         ensures final(self).started@, final(self).timer.armed(), final(self).rx_marks@ == old(self).rx_marks@, final(self).tx_marks@ == old(self).tx_marks@,
+            final(self).timer.pending().count(HeartbeatKind::Rx) > 0, final(self).timer.pending().count(HeartbeatKind::Tx) == old(self).timer.pending().count(HeartbeatKind::Tx),
     { unimplemented!() }
     #[verifier::external_body]
     pub fn fire_tx(&mut self) -> (r: HeartbeatState)
         requires old(self).started@,
         ensures final(self).started@, final(self).timer.armed(), final(self).rx_marks@ == old(self).rx_marks@, final(self).tx_marks@ == old(self).tx_marks@,
+            final(self).timer.pending().count(HeartbeatKind::Tx) > 0, final(self).timer.pending().count(HeartbeatKind::Rx) == old(self).timer.pending().count(HeartbeatKind::Rx),
     { unimplemented!() }
 }
